@@ -510,6 +510,20 @@ def fixed_tm_scripts(prefix, methods=METHODS):
                  "R fd 1 1 %d tm_reg 2 1 1 900000000" % k]
             L += ["E %d pwrite 1 1" % q for q in range(1, k + 3)]
             out.append("\n".join(L + ["X"]) + "\n")
+    # a slow handler registers a timer, takes longer than the timer's delay and tells the library
+    # (iv_invalidate_now): the wait that follows is computed from a fresh clock reading, not the stale one.
+    # No timer exists at the top of that iteration (the timer pass has not read the clock either).
+    for who, sec, ns, slow in (("tk", 1, 0, (1, 500000000)), ("fd", 0, 30000000, (0, 45000000)), ("tk", 0, 2000000, (0, 2500000)),
+                               ("fd", 2, 0, (1, 999000000))):
+        for m in methods:
+            n += 1
+            L = ["B %st%d.slow-handler-%s.%s method=%s seed=%d maxwait=30" % (prefix, n, who, m, m, n), "O fd 1 pr", "O tk 1", "O tm 1"]
+            if who == "tk":
+                L += ["S tk_reg 1", "R tk 1 0 1 tm_reg 1 1 %d %d" % (sec, ns), "R tk 1 0 1 slow %d %d" % slow]
+            else:
+                L += ["S fd_reg 1 1 0 0", "R fd 1 1 0 drain 1", "R fd 1 1 2 tm_reg 1 1 %d %d" % (sec, ns), "R fd 1 1 2 slow %d %d" % slow,
+                      "R tm 1 0 1 fd_unreg 1", "E 1 pwrite 1 1", "E 2 pwrite 1 1"]
+            out.append("\n".join(L + ["X"]) + "\n")
     return out
 
 
